@@ -21,7 +21,7 @@ RULE = ("first-contact histories (for every command/test of the language, the pr
         "conditions with extension-bound match types; oracle: each parse observation (verdict, error, error_pos, tree, "
         "serialisation, exception) equals the observation for that script alone in a pristine forked interpreter image, and each "
         "FiltersSet's observations equal those of its own sub-history run alone in the pristine image; every result tree obtained earlier in the "
-        "history still serialises to the same text after each later parse. Non-trivial = a step preceded "
+        "history still serialises to the same text after each later parse; ordered pairs/triples of scripts that leave a control structure open or end with one and scripts that start with else/elsif/closers, on one Parser. Non-trivial = a step preceded "
         "by a step that loaded an extension, failed or raised; distinct by history.")
 
 FIXED_SCRIPTS = [
